@@ -366,6 +366,36 @@ def arena_guard(res, rule, u=None):
         res.bad(rule, "mj_arenaAllocByte:size-test-before-advance", file, fn.get("line"), "; ".join(problems))
     else:
         res.ok(rule, "mj_arenaAllocByte:size-test-before-advance", {"advance": _lf.fmt(advs[0][1]), "inlined": fn.get("inlined")})
+    # 5. the size test is written in unsigned arithmetic: every subtraction inside it must be non-negative as a consequence
+    #    of the allocator invariant  pstack + parena <= narena  (all quantities unsigned), otherwise it wraps to a huge value
+    #    and the test accepts exactly when too little room is left.  Entailment: L = c*(narena - pstack - parena) + sum d_i*v_i
+    #    with c >= 0 and every d_i >= 0.
+    if len(advs) == 1 and advs[0][1] is not None:
+        st = advs[0][0]
+        wraps = []
+        nsub = 0
+        for cnd, _pol in norm.guards(body, st):
+            rel = _lf.relation(cnd, _pol, defs)
+            if not rel:
+                continue
+            for x in cir.walk(cnd):
+                if x.get("k") == "BinaryOperator" and x.get("op") == "-" and \
+                        any(w in (x.get("dt") or x.get("t") or "") for w in ("size_t", "unsigned", "uint")):
+                    a, b = cir.kids(x)
+                    L = _lf._add(_lf.linform(a, defs), _lf.linform(b, defs), -1)
+                    if L is None:
+                        continue
+                    nsub += 1
+                    c = L.get("d->narena", 0)
+                    rem = _lf._add(L, {"d->narena": 1, "d->pstack": -1, "d->parena": -1}, -c) if c else dict(L)
+                    if c < 0 or any(v < 0 for k2, v in (rem or {}).items()):
+                        wraps.append(cir.text(x))
+        if wraps:
+            res.bad(rule, "mj_arenaAllocByte:size-test-no-wrap", file, st.get("line"),
+                    f"the unsigned subtraction `{wraps[0]}` in the size test is not non-negative under pstack + parena <= narena: when "
+                    f"less room than the subtrahend is left it wraps around and the allocation is granted past the end of the arena")
+        else:
+            res.ok(rule, "mj_arenaAllocByte:size-test-no-wrap", {"unsigned_subtractions": nsub})
 
 
 def run(res, tier):
